@@ -337,7 +337,7 @@ Fixpoint walk (d : desc) (s : st) {struct d} : result st :=
       (* the factor is processed directly, not through process_members *)
       let* s1 := (match f with
                   | DElem e => do_element (DDElem e) e s
-                  | _ => Err EAttr           (* an undefined factor has no .unit *)
+                  | _ => Err EUnknownDescriptor   (* "Cannot process replication factor ..." (fix 1a9ad2c; before: AttributeError, no .unit) *)
                   end) in
       h_delayed H (walk_list ms) s1
   | DOper id => do_operator id (bitmapped_default add_link id) s
